@@ -360,6 +360,40 @@ def main():
                             ck.note("%s: values equal, array comes back with "
                                     "shape %r instead of %r" % (
                                         key, got.shape, d.shape))
+    # spectra export their units-managed frequency axis along with the
+    # data: exported and imported under the same units context, axis and
+    # values come back (compared in internal units)
+    from quantarhei.spectroscopy.abs2 import AbsSpectrum
+    for ext in (".dat", ".txt", ".npy", ".npz"):
+        for us in ("int", "1/cm", "eV"):
+            nfa = 8
+            rp = dict(kind="export-spectrum", fmt=ext, units=us)
+            key = "export:AbsSpectrum:%s:%s" % (ext, "int" if us == "int"
+                                                else "non-int")
+            fn = os.path.join(tmp, "sp" + ext)
+            with ck.guarded("export-round-trip", key, rp, rp):
+                with qr.energy_units("1/cm"):
+                    fa = qr.FrequencyAxis(11000.0, nfa, 25.0)
+                    fb = qr.FrequencyAxis(0.0, nfa, 1.0)
+                vals = rng.rand(nfa)
+                src = AbsSpectrum(axis=fa, data=vals.copy())
+                dst = AbsSpectrum(axis=fb, data=numpy.zeros(nfa))
+                with qr.energy_units(us), contextlib.redirect_stdout(
+                        io.StringIO()):
+                    src.save_data(fn)
+                    dst.load_data(fn)
+                with qr.energy_units("int"):
+                    ea = float(numpy.abs(numpy.array(dst.axis.data) -
+                                         numpy.array(fa.data)).max()) / \
+                        float(numpy.abs(numpy.array(fa.data)).max())
+                ed = float(numpy.abs(numpy.squeeze(numpy.array(dst.data))
+                                     - vals).max())
+                ck.case("export-round-trip", ("AbsSpectrum", ext, us),
+                        nontrivial=us != "int",
+                        sample=dict(rp, axis_err=ea, data_err=ed))
+                if ea > 1e-12 or ed > 1e-12:
+                    ck.violation("export-round-trip", key,
+                                 dict(rp, axis_err=ea, data_err=ed), rp)
     # density-matrix evolutions have their own text layout (time,
     # populations, real and imaginary parts of the upper triangle)
     from quantarhei.qm.propagators.dmevolution import (
